@@ -1,3 +1,2 @@
-import AbacusVerif.Model.Common
--- stub: replaced when the C18 model exists
-def main : IO Unit := AbacusVerif.driverMain (fun _ => "bad-op")
+import AbacusVerif.Model.C18
+def main : IO Unit := AbacusVerif.driverMain AbacusVerif.Euler16.handle
